@@ -29,4 +29,6 @@ def run(rep, fb, tier):
     _lv.rule_call_roles(rep, fb)
     from ..rules import lints2 as _l2
     _l2.rule_byteswap_width(rep, fb)
+    from ..rules import lints3 as _l3
+    _l3.rule_forth_source_literals(rep, fb)
     rep.units = fb.units
